@@ -126,3 +126,17 @@ impl TrackerResp {
             .collect()
     }
 }
+
+#[cfg(rdest_verif)]
+impl TrackerResp {
+    /// Parsed fields, for the conformance harness: (interval, [(ip, peer id, port)]).
+    pub fn verif_fields(&self) -> (u64, Vec<(String, [u8; HASH_SIZE], u64)>) {
+        (
+            self.interval,
+            self.peers
+                .iter()
+                .map(|p| (p.ip.clone(), p.peer_id, p.port))
+                .collect(),
+        )
+    }
+}
